@@ -25,6 +25,7 @@ import (
 //     (after which it reads as closed), or -- environment alternative standing
 //     for "more than 256 KB pending" -- gives up and closes the connection
 //     after the reply;
+//   - (scenario option "fullduplex") a server in full-duplex mode, where that rule is off;
 //   - cancellation closing the connection; the server noticing a closed
 //     connection through failing body reads, and through its background read
 //     (which cancels the request context) only once the body has hit EOF;
@@ -38,10 +39,14 @@ const hugeCap = 1 << 20
 type memTransport struct {
 	h      http.Handler
 	giveUp bool
+	// fullDuplex: the server was put into full-duplex mode (http.ResponseController.EnableFullDuplex, e.g. by
+	// a middleware around the httpgrpc handlers): the early-response rule does not apply, a reply travels
+	// while the request body is still open
+	fullDuplex bool
 }
 
-func newMemTransport(h http.Handler, giveUp bool) http.RoundTripper {
-	return &memTransport{h: h, giveUp: giveUp}
+func newMemTransport(h http.Handler, giveUp, fullDuplex bool) http.RoundTripper {
+	return &memTransport{h: h, giveUp: giveUp, fullDuplex: fullDuplex}
 }
 
 type memConn struct {
@@ -263,7 +268,9 @@ func (w *memRespWriter) commit() {
 	}
 	rb := w.rb
 	sawEOF, closed := rb.state()
-	if !sawEOF && !closed {
+	if w.c.t.fullDuplex {
+		// no early-response rule: the request body stays as it is
+	} else if !sawEOF && !closed {
 		alt := 0
 		if w.c.t.giveUp {
 			alt = mc.Choose(2, "early-response(discard|giveup)")
